@@ -11,6 +11,10 @@ pub enum Call {
     Add { v: usize },
     Bind { v1: usize, v2: usize, a: String },
     Put { v: usize, d: String },
+    /// save() to the checkpoint file of this process (read back LATER by Load: the file is a snapshot in time)
+    Save,
+    /// load() of the checkpoint file into handle dst (the graph type is the one of handle h)
+    Load { dst: usize },
     Data { v: usize },
     NextId,
     Clone { dst: usize },
@@ -71,6 +75,8 @@ impl HCall {
             Call::NextId => json!({"op":"next_id"}),
             Call::Clone { dst } => json!({"op":"clone","dst":dst}),
             Call::Reload { dst } => json!({"op":"reload","dst":dst}),
+            Call::Save => json!({"op":"save"}),
+            Call::Load { dst } => json!({"op":"load","dst":dst}),
             Call::Slice { dst, v, p } => json!({"op":"slice","dst":dst,"v":v,"p":p.to_json()}),
             Call::Merge { src, left, right } => json!({"op":"merge","src":src,"left":left,"right":right}),
             Call::Deploy { text, prog, fault_at } => json!({"op":"deploy","text":text,"prog":prog,"fault_at":fault_at}),
@@ -95,6 +101,8 @@ impl HCall {
             "next_id" => Call::NextId,
             "clone" => Call::Clone { dst: u("dst") },
             "reload" => Call::Reload { dst: u("dst") },
+            "save" => Call::Save,
+            "load" => Call::Load { dst: u("dst") },
             "slice" => Call::Slice { dst: u("dst"), v: u("v"), p: Pred::from_json(&v["p"]) },
             "merge" => Call::Merge { src: u("src"), left: u("left"), right: u("right") },
             "deploy" => Call::Deploy { text: unplace(&s("text")), prog: unplace_prog(&v.get("prog").cloned().unwrap_or(json!([]))), fault_at: v.get("fault_at").and_then(|x| x.as_u64()).unwrap_or(0) as usize },
@@ -221,6 +229,25 @@ impl World {
                     Err(p) => Ret::Panic(p),
                 }
             }
+            Call::Save => {
+                let path = self.scratch.join(format!("ckpt-{}.sodg", std::process::id()));
+                match self.g(h).save(&path) {
+                    Err(p) => Ret::Panic(p),
+                    Ok(Err(e)) => Ret::Err(e),
+                    Ok(Ok(_)) => Ret::Ok,
+                }
+            }
+            Call::Load { dst } => {
+                let path = self.scratch.join(format!("ckpt-{}.sodg", std::process::id()));
+                match self.g(h).load_same(&path) {
+                    Err(p) => Ret::Panic(p),
+                    Ok(Err(e)) => Ret::Err(e),
+                    Ok(Ok(g)) => {
+                        *self.slot(*dst) = Some(g);
+                        Ret::Ok
+                    }
+                }
+            }
             Call::Reload { dst } => {
                 // one checkpoint path per process, overwritten by every save() and never removed in between (as a long-lived
                 // checkpoint file is): whatever an earlier, possibly longer image left behind is still there when save() runs
@@ -285,7 +312,7 @@ impl World {
         let mut obs = vec![];
         let mut hs = vec![c.h];
         match &c.call {
-            Call::Clone { dst } | Call::Reload { dst } | Call::Slice { dst, .. } => hs.push(*dst),
+            Call::Clone { dst } | Call::Reload { dst } | Call::Load { dst } | Call::Slice { dst, .. } => hs.push(*dst),
             Call::Merge { src, .. } => hs.push(*src),
             _ => {}
         }
